@@ -99,7 +99,16 @@ func fmapSeqIssues(rs *Resid, fn *ast.FuncDecl) []sideIssue {
 		if canon(ix.X) != outVar || canon(ix.Index) != key || key == "_" {
 			iss(as, "slot", "stores at %s; the i-th result belongs at %s[%s]", rs.src(as.Lhs[0]), outVar, key)
 		}
-		if c, ok := as.Rhs[0].(*ast.CallExpr); !ok || canon(c.Fun) != f {
+		stored := as.Rhs[0]
+		// b := f(elem); out[i] = b — the result bound to a local of the loop body first
+		if id, isID := unparen(stored).(*ast.Ident); isID {
+			for _, st := range l.loop.Body.List {
+				if d, isD := st.(*ast.AssignStmt); isD && d.Tok == token.DEFINE && len(d.Lhs) == 1 && len(d.Rhs) == 1 && canon(d.Lhs[0]) == id.Name && d.Pos() < as.Pos() {
+					stored = d.Rhs[0]
+				}
+			}
+		}
+		if c, ok := stored.(*ast.CallExpr); !ok || canon(c.Fun) != f {
 			iss(as, "slot-value", "stores %s instead of f(element)", rs.src(as.Rhs[0]))
 		}
 		return true
